@@ -116,7 +116,8 @@ theorem pstep_indep (hT : TablesOK T) (hfs : C07.covers fs = true) (s : PSt) (in
     simp only [List.concat_eq_append, List.foldl_append, List.foldl_cons, List.foldl_nil, pstep]
     rw [C07.noninterference hT cfg fs hfs, C07.noninterference hT cfg fs hfs]
 
-/-- **Every result a goroutine receives from a pooled parser call is `Json.run` of its own input**
+/-- (general lemma; instantiated below for the regenerated tables and reset lists)
+**Every result a goroutine receives from a pooled parser call is `Json.run` of its own input**
 (the last call made while holding the instance), whatever the other goroutines do and whatever
 earlier calls left in the instance. -/
 theorem C08_results_parsers (hT : TablesOK T) (hfs : C07.covers fs = true) (copies : Bool)
@@ -133,6 +134,41 @@ theorem C08_results_parsers (hT : TablesOK T) (hfs : C07.covers fs = true) (copi
     simp only [List.concat_eq_append, List.foldl_append, List.foldl_cons, List.foldl_nil, pstep,
       List.getLast?_append, List.getLast?_singleton, Option.some_or, Option.map_some]
     rw [C07.noninterference hT cfg fs hfs]
+
+
+/-! The hypotheses of `C08_results_parsers` instantiated: the regenerated oj and gen tables
+(`C01.ojTables_ok`, `C01.genTables_ok`) and the regenerated reset lists (`C07.entries_cover`). -/
+
+/-- oj tables (oj.Parse, oj.Load, …: the pooled oj.Parser), any covering reset list -/
+theorem C08_results_ojTables (cfg : Json.Cfg) (fs : List Field) (left : Json.St → List Bytes → Json.St)
+    (hfs : C07.covers fs = true) (copies : Bool)
+    {σ : State (List Bytes) PSt (Option (Except Json.Err (List JV)))}
+    (h : Reachable (fun s => (s.1, none)) (pstep Json.ojTables cfg fs left) (·.2) (({} : Json.St), none) copies σ) (g : Nat) :
+    σ.res g = (σ.calls g).map fun inp => (inp.getLast?).map (Json.run Json.ojTables cfg) :=
+  C08_results_parsers Json.ojTables cfg fs left C01.ojTables_ok hfs copies h g
+
+/-- gen tables (gen.Parser) -/
+theorem C08_results_genTables (cfg : Json.Cfg) (fs : List Field) (left : Json.St → List Bytes → Json.St)
+    (hfs : C07.covers fs = true) (copies : Bool)
+    {σ : State (List Bytes) PSt (Option (Except Json.Err (List JV)))}
+    (h : Reachable (fun s => (s.1, none)) (pstep Json.genTables cfg fs left) (·.2) (({} : Json.St), none) copies σ) (g : Nat) :
+    σ.res g = (σ.calls g).map fun inp => (inp.getLast?).map (Json.run Json.genTables cfg) :=
+  C08_results_parsers Json.genTables cfg fs left C01.genTables_ok hfs copies h g
+
+/-- **no hypothesis left**: for every generated entry point of the strict-JSON front-ends and every
+call site of its buffer function, with the tables of its package and the fields the source resets
+there — every result a goroutine receives through the pool protocol is `Json.run` of its own input -/
+theorem C08_results_entries (e : Gen.ReuseFacts.Entry) (he : e ∈ C07.parserEntries)
+    (st : Gen.ReuseFacts.Site) (hst : st ∈ e.sites)
+    (cfg : Json.Cfg) (left : Json.St → List Bytes → Json.St) (copies : Bool)
+    {σ : State (List Bytes) PSt (Option (Except Json.Err (List JV)))}
+    (h : Reachable (fun s => (s.1, none))
+      (pstep (C07.tablesOf e.recv) cfg (resetFields e.recv st.assigned) left) (·.2) (({} : Json.St), none) copies σ)
+    (g : Nat) :
+    σ.res g = (σ.calls g).map fun inp => (inp.getLast?).map (Json.run (C07.tablesOf e.recv) cfg) := by
+  have hc := C07.entries_cover
+  simp only [List.all_eq_true, Bool.and_eq_true] at hc
+  exact C08_results_parsers _ cfg _ left (C07.tablesOf_ok e.recv) (hc e he st hst).2 copies h g
 
 end
 
